@@ -67,14 +67,20 @@ var inlCounter int
 // outside the supported fragment.
 func stmtInline(cpkg *packages.Package, cfile *ast.File, call *ast.CallExpr, ccontent []byte,
 	hpkg *packages.Package, hdecl *ast.FuncDecl, hcontent []byte) ([]byte, error) {
+	hfn := hpkg.TypesInfo.Defs[hdecl.Name].(*types.Func)
+	return stmtInlineSig(cpkg, cfile, call, ccontent, hpkg, hdecl, hcontent, hfn.Type().(*types.Signature))
+}
+
+// stmtInlineSig: hdecl may be synthesised from a function literal (no name, no receiver); sig is
+// the callee's signature.
+func stmtInlineSig(cpkg *packages.Package, cfile *ast.File, call *ast.CallExpr, ccontent []byte,
+	hpkg *packages.Package, hdecl *ast.FuncDecl, hcontent []byte, sig *types.Signature) ([]byte, error) {
 
 	if cpkg.Types != hpkg.Types {
 		return nil, fmt.Errorf("callee in another package")
 	}
 	fset := cpkg.Fset
 	cinfo, hinfo := cpkg.TypesInfo, hpkg.TypesInfo
-	hfn := hinfo.Defs[hdecl.Name].(*types.Func)
-	sig := hfn.Type().(*types.Signature)
 	if sig.Variadic() || sig.TypeParams().Len() > 0 || sig.RecvTypeParams().Len() > 0 {
 		return nil, fmt.Errorf("variadic or generic callee")
 	}
@@ -135,12 +141,47 @@ func stmtInline(cpkg *packages.Package, cfile *ast.File, call *ast.CallExpr, cco
 			holder = path[i+1]
 		}
 	}
+	// initOf: the statement is the init clause of this if/switch statement, which itself stands in a block:
+	// "if x := f(a); cond {...}" is rewritten to "{ x := f(a); if cond {...} }" (same scope for x)
+	var initOf ast.Stmt
+	var initNext token.Pos // where the rest of the header starts (condition / tag / opening brace)
 	switch h := holder.(type) {
 	case *ast.BlockStmt, *ast.CaseClause, *ast.CommClause:
 		_ = h
-	case *ast.IfStmt:
-		// "else if f(x)": cannot prepend statements
-		return nil, fmt.Errorf("statement is an else-if")
+	case *ast.IfStmt, *ast.SwitchStmt, *ast.TypeSwitchStmt:
+		var init ast.Stmt
+		switch hh := h.(type) {
+		case *ast.IfStmt:
+			init, initNext = hh.Init, hh.Cond.Pos()
+		case *ast.SwitchStmt:
+			init = hh.Init
+			if hh.Tag != nil {
+				initNext = hh.Tag.Pos()
+			} else {
+				initNext = hh.Body.Pos()
+			}
+		case *ast.TypeSwitchStmt:
+			init, initNext = hh.Init, hh.Assign.Pos()
+		}
+		if init == nil || init != stmt {
+			// "else if f(x)": cannot prepend statements
+			return nil, fmt.Errorf("statement is an else-if")
+		}
+		var outer ast.Node
+		for i, n := range path {
+			if n == holder && i+1 < len(path) {
+				outer = path[i+1]
+			}
+		}
+		switch outer.(type) {
+		case *ast.BlockStmt, *ast.CaseClause, *ast.CommClause:
+		default:
+			return nil, fmt.Errorf("init clause of a nested else-if")
+		}
+		if kind != ctxAssign {
+			return nil, fmt.Errorf("init clause that is not an assignment")
+		}
+		initOf = h.(ast.Stmt)
 	default:
 		return nil, fmt.Errorf("statement is not in a block (%T)", holder)
 	}
@@ -154,6 +195,7 @@ func stmtInline(cpkg *packages.Package, cfile *ast.File, call *ast.CallExpr, cco
 	var bad string
 	retDepth := 0
 	var returns []*ast.ReturnStmt
+	var defers []*ast.DeferStmt
 	var inspect func(n ast.Node) bool
 	inspect = func(n ast.Node) bool {
 		switch x := n.(type) {
@@ -164,7 +206,7 @@ func stmtInline(cpkg *packages.Package, cfile *ast.File, call *ast.CallExpr, cco
 			return false
 		case *ast.DeferStmt:
 			if retDepth == 0 {
-				bad = "defer"
+				defers = append(defers, x)
 			}
 		case *ast.BranchStmt:
 			if x.Tok == token.GOTO {
@@ -184,6 +226,67 @@ func stmtInline(cpkg *packages.Package, cfile *ast.File, call *ast.CallExpr, cco
 	ast.Inspect(hdecl.Body, inspect)
 	if bad != "" {
 		return nil, fmt.Errorf("callee uses %s", bad)
+	}
+	// defer: supported when every defer statement stands directly in the callee's body before the
+	// first return (so it is registered on every path that reaches an exit), the deferred call has
+	// no arguments and its receiver is a selector path rooted in a parameter/receiver that the callee
+	// never re-assigns (or it is a function literal called without arguments), and the results are not
+	// named.  The deferred calls then run, in reverse order, where the body is left.  (Their running
+	// during a panic is not modelled; no rule of this checker is about panicking executions.)
+	if len(defers) > 0 {
+		lastDefer := token.NoPos
+		for _, d := range defers {
+			top := false
+			for _, st := range hdecl.Body.List {
+				if st == ast.Stmt(d) {
+					top = true
+				}
+			}
+			if !top {
+				return nil, fmt.Errorf("callee uses defer inside a nested statement")
+			}
+			if len(d.Call.Args) != 0 {
+				return nil, fmt.Errorf("callee defers a call with arguments")
+			}
+			switch f := ast.Unparen(d.Call.Fun).(type) {
+			case *ast.FuncLit:
+			case *ast.SelectorExpr:
+				root := ast.Expr(f)
+				for {
+					if se, ok := ast.Unparen(root).(*ast.SelectorExpr); ok {
+						root = se.X
+						continue
+					}
+					break
+				}
+				id, ok := ast.Unparen(root).(*ast.Ident)
+				if !ok {
+					return nil, fmt.Errorf("callee defers a call on a computed receiver")
+				}
+				if obj := hinfo.Uses[id]; obj == nil || !neverReassigned(hinfo, hdecl, obj) {
+					if _, isPkg := hinfo.Uses[id].(*types.PkgName); !isPkg {
+						return nil, fmt.Errorf("callee defers a call on a receiver that may change")
+					}
+				}
+			default:
+				return nil, fmt.Errorf("callee defers a computed function")
+			}
+			if d.End() > lastDefer {
+				lastDefer = d.End()
+			}
+		}
+		for _, r := range returns {
+			if r.Pos() < lastDefer {
+				return nil, fmt.Errorf("callee returns before a defer statement")
+			}
+		}
+		if hdecl.Type.Results != nil {
+			for _, f := range hdecl.Type.Results.List {
+				if len(f.Names) > 0 {
+					return nil, fmt.Errorf("callee with defer and named results")
+				}
+			}
+		}
 	}
 	inlCounter++
 	suffix := fmt.Sprintf("__i%d", inlCounter)
@@ -268,6 +371,13 @@ func stmtInline(cpkg *packages.Package, cfile *ast.File, call *ast.CallExpr, cco
 			ast.Inspect(x.X, func(m ast.Node) bool { return true })
 		case *ast.KeyValueExpr:
 			// struct literal keys are field names
+		case *ast.TypeSwitchStmt:
+			// "switch v := x.(type)": v has no object of its own (one implicit object per clause)
+			if as, ok := x.Assign.(*ast.AssignStmt); ok && len(as.Lhs) == 1 {
+				if id, ok := as.Lhs[0].(*ast.Ident); ok && id.Name != "_" {
+					eds = append(eds, textEdit{off(id.Pos()), off(id.End()), id.Name + suffix})
+				}
+			}
 		case *ast.Ident:
 			obj := hinfo.Uses[x]
 			if obj == nil {
@@ -298,6 +408,11 @@ func stmtInline(cpkg *packages.Package, cfile *ast.File, call *ast.CallExpr, cco
 				if obj.Parent() == hpkg.Types.Scope() || obj.Parent() == types.Universe {
 					if _, got := innermost.LookupParent(x.Name, callPos); got != obj && capErr == nil {
 						capErr = fmt.Errorf("identifier %s is shadowed at the call", x.Name)
+					}
+				} else if _, isLabel := obj.(*types.Label); !isLabel && obj.Pkg() == hpkg.Types && obj.Parent() != nil {
+					// a variable of the function enclosing a literal: the same object must be visible at the call
+					if _, got := innermost.LookupParent(x.Name, callPos); got != obj && capErr == nil {
+						capErr = fmt.Errorf("captured identifier %s is not the same object at the call", x.Name)
 					}
 				}
 			}
@@ -389,9 +504,55 @@ func stmtInline(cpkg *packages.Package, cfile *ast.File, call *ast.CallExpr, cco
 	if qerr != nil {
 		return nil, qerr
 	}
+	// ---- guard form: "if [!]f(a) { S }" where every return of f is a boolean constant and S is a
+	// short terminating sequence: each return that takes the branch becomes a copy of S, the others leave
+	// the inlined body; no flag variable is needed and the paths stay separate in the flow graph ----
+	guard := false
+	guardText := ""
+	if kind == ctxIfCond && ifs.Else == nil && len(returns) > 0 {
+		guard = true
+		for _, r := range returns {
+			if len(r.Results) != 1 {
+				guard = false
+				break
+			}
+			id, ok := r.Results[0].(*ast.Ident)
+			if !ok || (id.Name != "true" && id.Name != "false") || hinfo.Uses[id] == nil || hinfo.Uses[id].Parent() != types.Universe {
+				guard = false
+				break
+			}
+		}
+		n := len(ifs.Body.List)
+		if n == 0 || n > 6 {
+			guard = false
+		} else if _, isRet := ifs.Body.List[n-1].(*ast.ReturnStmt); !isRet {
+			guard = false
+		}
+		if guard {
+			ast.Inspect(ifs.Body, func(m ast.Node) bool {
+				switch m.(type) {
+				case *ast.FuncLit, *ast.BranchStmt, *ast.LabeledStmt, *ast.ForStmt, *ast.RangeStmt, *ast.SwitchStmt, *ast.TypeSwitchStmt, *ast.SelectStmt, *ast.DeferStmt, *ast.GoStmt:
+					guard = false
+				}
+				return guard
+			})
+		}
+		if guard {
+			guardText = srcOf(ifs.Body)
+		}
+	}
 	// ---- returns ----
 	for _, r := range returns {
 		s, e := off(r.Pos()), off(r.End())
+		if guard {
+			taken := (r.Results[0].(*ast.Ident).Name == "true") != negate
+			if taken {
+				eds = append(eds, textEdit{s, e, guardText})
+			} else {
+				eds = append(eds, textEdit{s, e, "break " + label})
+			}
+			continue
+		}
 		if len(r.Results) == 0 {
 			eds = append(eds, textEdit{s, s + len("return"), "break " + label})
 			continue
@@ -402,7 +563,51 @@ func stmtInline(cpkg *packages.Package, cfile *ast.File, call *ast.CallExpr, cco
 		eds = append(eds, textEdit{s, s + len("return"), "{ " + strings.Join(resNames, ", ") + " ="})
 		eds = append(eds, textEdit{e, e, "; break " + label + " }"})
 	}
+	var deferred []string
+	for _, d := range defers {
+		// the call text (with renamed identifiers) is taken from the edited body below; here only the
+		// keyword is dropped and the statement is moved by marking it
+		eds = append(eds, textEdit{off(d.Pos()), off(d.Pos()) + len("defer"), "/*deferred" + suffix + "*/ if false"})
+		eds = append(eds, textEdit{off(d.Call.Pos()), off(d.Call.Pos()), "{ "})
+		eds = append(eds, textEdit{off(d.End()), off(d.End()), " }"})
+	}
 	body := applyTextEdits(hcontent[hbase:hend], eds)
+	if len(defers) > 0 {
+		// extract the renamed call texts from the edited body: "/*deferred__iN*/ if false{ <call> }"
+		marker := "/*deferred" + suffix + "*/ if false { "
+		rest := string(body)
+		var kept strings.Builder
+		for {
+			i := strings.Index(rest, marker)
+			if i < 0 {
+				kept.WriteString(rest)
+				break
+			}
+			kept.WriteString(rest[:i])
+			rest = rest[i+len(marker):]
+			// the call ends at the matching " }" appended above: find it by brace depth
+			depth, j := 0, 0
+			for j = 0; j < len(rest); j++ {
+				if rest[j] == '{' {
+					depth++
+				} else if rest[j] == '}' {
+					if depth == 0 {
+						break
+					}
+					depth--
+				}
+			}
+			deferred = append(deferred, strings.TrimSpace(rest[:j]))
+			if j < len(rest) {
+				j++ // the closing brace
+			}
+			rest = rest[j:]
+		}
+		body = []byte(kept.String())
+		if len(deferred) != len(defers) {
+			return nil, fmt.Errorf("internal: deferred calls not recovered")
+		}
+	}
 
 	// ---- assemble ----
 	var b bytes.Buffer
@@ -434,7 +639,7 @@ func stmtInline(cpkg *packages.Package, cfile *ast.File, call *ast.CallExpr, cco
 		}
 	}
 	condVar := "cond" + suffix
-	if kind == ctxIfCond {
+	if kind == ctxIfCond && !guard {
 		fmt.Fprintf(&b, "var %s %s\n", condVar, resTypes[0])
 	}
 	b.WriteString("{\n")
@@ -448,11 +653,17 @@ func stmtInline(cpkg *packages.Package, cfile *ast.File, call *ast.CallExpr, cco
 		fmt.Fprintf(&b, "%s = %s\n", strings.Repeat("_, ", len(ls)-1)+"_", strings.Join(ls, ", "))
 	}
 	for i := range resNames {
+		if guard {
+			break
+		}
 		fmt.Fprintf(&b, "var %s %s\n_ = %s\n", resNames[i], resTypes[i], resNames[i])
 	}
 	fmt.Fprintf(&b, "%s:\nfor {\n", label)
 	b.Write(body)
 	fmt.Fprintf(&b, "\nbreak %s\n}\n", label)
+	for i := len(deferred) - 1; i >= 0; i-- {
+		fmt.Fprintf(&b, "%s\n", deferred[i])
+	}
 	switch kind {
 	case ctxAssign:
 		var ls []string
@@ -466,11 +677,24 @@ func stmtInline(cpkg *packages.Package, cfile *ast.File, call *ast.CallExpr, cco
 	case ctxReturn:
 		fmt.Fprintf(&b, "return %s\n", strings.Join(resNames, ", "))
 	case ctxIfCond:
-		fmt.Fprintf(&b, "%s = %s\n", condVar, resNames[0])
+		if !guard {
+			fmt.Fprintf(&b, "%s = %s\n", condVar, resNames[0])
+		}
 	}
 	b.WriteString("}\n")
 	var out []textEdit
-	if kind == ctxIfCond {
+	if initOf != nil {
+		kw := "if "
+		switch initOf.(type) {
+		case *ast.SwitchStmt, *ast.TypeSwitchStmt:
+			kw = "switch "
+		}
+		out = append(out, textEdit{tfc.Offset(initOf.Pos()), tfc.Offset(initNext), "{\n" + b.String() + kw})
+		out = append(out, textEdit{tfc.Offset(initOf.End()), tfc.Offset(initOf.End()), "\n}"})
+	} else if guard {
+		// the whole if statement is replaced
+		out = append(out, textEdit{stmtStart, stmtEnd, b.String()})
+	} else if kind == ctxIfCond {
 		// statements go before the if; the condition becomes the variable
 		out = append(out, textEdit{stmtStart, stmtStart, b.String()})
 		cs, ce := tfc.Offset(ifs.Cond.Pos()), tfc.Offset(ifs.Cond.End())
@@ -631,6 +855,7 @@ func hoistCall(cpkg *packages.Package, cfile *ast.File, call *ast.CallExpr, ccon
 		}
 	}
 	var blocker string
+	var blockingCall *ast.CallExpr
 	ast.Inspect(root, func(n ast.Node) bool {
 		if n == nil || blocker != "" {
 			return false
@@ -657,6 +882,7 @@ func hoistCall(cpkg *packages.Package, cfile *ast.File, call *ast.CallExpr, ccon
 			}
 			if x.End() <= call.Pos() {
 				blocker = "a call precedes it in the statement"
+				blockingCall = x
 			}
 		case *ast.UnaryExpr:
 			if x.Op == token.ARROW && x.End() <= call.Pos() {
@@ -667,6 +893,15 @@ func hoistCall(cpkg *packages.Package, cfile *ast.File, call *ast.CallExpr, ccon
 		}
 		return true
 	})
+	if blockingCall != nil {
+		// hoist the earlier call first (calls are evaluated in lexical order, so taking them out one
+		// by one from the left keeps the order); the helper call follows in a later round
+		if out, err := hoistCall(cpkg, cfile, blockingCall, ccontent); err == nil {
+			return out, nil
+		} else {
+			return nil, fmt.Errorf("%s (which cannot be hoisted: %v)", blocker, err)
+		}
+	}
 	if blocker != "" {
 		return nil, fmt.Errorf("%s", blocker)
 	}
